@@ -4,12 +4,11 @@
 set -u
 T=${BASELINE_TARGET:-/tmp/baseline_target}
 cd /repo
-rm -f "$T/nextest/pb/junit.xml"
+rm -f /repo/target/nextest/pb/junit.xml
 CARGO_NET_OFFLINE=true CARGO_TARGET_DIR="$T" cargo nextest run --workspace --no-fail-fast \
   --tool-config-file pb:/w/lib/nextest.toml --profile pb --test-threads 8 --offline > /tmp/baseline_run.log 2>&1
 echo "nextest rc=$?"
-python3 /w/lib/parse_tests.py --kind junit --glob "$T/nextest/pb/junit.xml" > /tmp/baseline_parsed.json 2>/dev/null || \
-  python3 /w/lib/parse_tests.py --kind junit --glob "$T/nextest/pb/junit.xml" --out /tmp/baseline_parsed.json
+python3 /w/lib/parse_tests.py --kind junit --glob /repo/target/nextest/pb/junit.xml --out /tmp/baseline_parsed.json
 python3 - <<'PY'
 import json
 b=json.load(open('/root/.vp/BASELINE.json'))
